@@ -193,39 +193,38 @@ def rule_eq(rep, d):
             if len(ps) != 2 or seq + "<" not in ir.wtype(ps[0]):
                 continue
             where = d.where(fn)
-            rets = [s for s in ir.walk_expr(ir.body(fn)) if s.get("kind") == "ReturnStmt"]
-            t = strip_casts(ir.sx(ir.ekids(rets[0])[0]))
+            from .. import norm
             l, r = ps[0]["name"], ps[1]["name"]
             label = "%s %s" % (seq, fn["name"])
-            if fn["name"] == "operator!=":
-                ok = t in (("un", "!", ("bin", "==", ("ref", l), ("ref", r))), ("un", "!", ("bin", "==", ("ref", r), ("ref", l))))
-                (rep.holds if ok else rep.violates)("C11.eq", label, "negation of ==", where=where, detail=ir.show(t))
-                continue
-            conj = []
-
-            def flat(x):
-                if x[0] == "bin" and x[1] == "&&":
-                    flat(x[2]); flat(x[3])
-                else:
-                    conj.append(x)
-            flat(t)
-            want = set()
-            for acc in (f["acc_a"], f["acc_b"]):
-                want.add(acc)
+            accs = [f["acc_a"], f["acc_b"]]
             seen = set()
-            bad = []
-            for c in conj:
-                if c[0] != "bin" or c[1] != "==":
-                    bad.append("term `%s` is not an equality" % ir.show(c))
-                    continue
-                a, b = c[2], c[3]
-                if a[0] == "call" and b[0] == "call" and a[1][0] == "mem" and b[1][0] == "mem" and a[1][2] == b[1][2] and {a[1][1], b[1][1]} == {("ref", l), ("ref", r)}:
-                    seen.add(a[1][2])
-                else:
-                    bad.append("`%s` does not compare the same part of both operands" % ir.show(c))
-            if want - seen:
-                bad.append("parts not compared: %s" % sorted(want - seen))
-            (rep.holds if not bad else rep.violates)("C11.eq", label, "compares both storages", where=where, detail="; ".join(bad) or ir.show(t))
+
+            def classify(t):
+                if t[0] == "bin" and t[1] in ("==", "!="):
+                    a_, b_ = norm.uncast(t[2]), norm.uncast(t[3])
+                    neg = t[1] == "!="
+                    if {a_, b_} == {("ref", l), ("ref", r)}:
+                        return (lambda asg: (all(asg)) != neg)           # the sibling operator==, decided on its own
+                    if a_[0] == "call" and b_[0] == "call" and len(a_) == 2 and len(b_) == 2 and a_[1][0] == "mem" and b_[1][0] == "mem" and a_[1][2] == b_[1][2] \
+                            and a_[1][2] in accs and {a_[1][1], b_[1][1]} == {("ref", l), ("ref", r)}:
+                        i_ = accs.index(a_[1][2])
+                        seen.add(a_[1][2])
+                        return (lambda asg, i_=i_: asg[i_] != neg)
+                return None
+            try:
+                table = norm.truth_table(d, fn, classify, 2)
+            except norm.Undecided as e:
+                rep.inconclusive("C11.eq", label, "truth table over (first storage equal, second storage equal)", where=where, detail=str(e))
+                continue
+            is_eq = fn["name"] == "operator=="
+            wrong = [asg for asg, v in table.items() if v != (all(asg) == is_eq)]
+            cons = "compares both storages" if is_eq else "negation of =="
+            if wrong:
+                asg = wrong[0]
+                rep.violates("C11.eq", label, cons, where=where, detail="with %s() %s and %s() %s it yields %s" % (
+                    accs[0], "equal" if asg[0] else "different", accs[1], "equal" if asg[1] else "different", table[asg]))
+            else:
+                rep.holds("C11.eq", label, cons, where=where, detail="truth table over (%s equal, %s equal)" % tuple(accs))
 
 
 def rule_init(rep):
